@@ -120,6 +120,47 @@ impl Guarded {
     }
 }
 
+/// Raw description of a guarded allocation (no borrow of the owning struct is kept).
+#[derive(Clone, Copy)]
+pub struct GuardRef {
+    pub ptr: *mut u8,
+    pub len: usize,
+    pub tail: usize,
+}
+
+impl GuardRef {
+    pub fn payload(&self) -> *const u8 {
+        unsafe { self.ptr.add(GUARD) }
+    }
+    /// # Safety
+    /// the allocation must still be alive
+    pub unsafe fn guards_intact(&self) -> bool {
+        unpoison(self.ptr, GUARD);
+        if self.tail > 0 {
+            unpoison(unsafe { self.ptr.add(GUARD + self.len) }, self.tail);
+        }
+        let ok = unsafe {
+            (0..GUARD).all(|i| *self.ptr.add(i) == CANARY) && (0..self.tail).all(|i| *self.ptr.add(GUARD + self.len + i) == CANARY)
+        };
+        poison(self.ptr, GUARD);
+        if self.tail > 0 {
+            poison(unsafe { self.ptr.add(GUARD + self.len) }, self.tail);
+        }
+        ok
+    }
+    /// # Safety
+    /// the allocation must still be alive and not mutably borrowed
+    pub unsafe fn read(&self) -> Vec<u8> {
+        unsafe { std::slice::from_raw_parts(self.payload(), self.len).to_vec() }
+    }
+}
+
+impl Guarded {
+    pub fn raw_ref(&self) -> GuardRef {
+        GuardRef { ptr: self.ptr, len: self.len, tail: self.tail }
+    }
+}
+
 impl Drop for Guarded {
     fn drop(&mut self) {
         self.unpoison_guards();
